@@ -262,7 +262,7 @@ def run(tier, seed):
             rep.cut_short("block %s not run" % name)
             continue
         cases = list(gen(tier, seed))
-        res = e1.run_block(rep, cases, MOVMODES, validate_tag=PROP)
+        res = e1.run_block(rep, cases, MOVMODES, validate_tag=PROP, fit_retry=True)
         rep.bounds[name] = len(cases)
         for smp in res[:2]:
             rep.sample(smp)
